@@ -270,10 +270,12 @@ func (f *File) AddChild(child Box, boxStartPos uint64) {
 		f.Ftyp = box
 	case *MoovBox:
 		f.Moov = box
-		if len(f.Moov.Trak.Mdia.Minf.Stbl.Stts.SampleCount) == 0 {
+		if moovHasNoSamples(f.Moov) {
 			f.isFragmented = true
 			f.Init = NewMP4Init()
-			f.Init.AddChild(f.Ftyp)
+			if f.Ftyp != nil {
+				f.Init.AddChild(f.Ftyp)
+			}
 			f.Init.AddChild(f.Moov)
 		}
 	case *SidxBox:
@@ -332,6 +334,17 @@ func (f *File) AddChild(child Box, boxStartPos uint64) {
 		f.Mfra = box
 	}
 	f.Children = append(f.Children, child)
+}
+
+// moovHasNoSamples tells if the first track of moov has an empty stts box (fragmented file).
+// If the box chain down to stts is incomplete, the presence of an mvex box decides.
+func moovHasNoSamples(moov *MoovBox) bool {
+	trak := moov.Trak
+	if trak == nil || trak.Mdia == nil || trak.Mdia.Minf == nil || trak.Mdia.Minf.Stbl == nil ||
+		trak.Mdia.Minf.Stbl.Stts == nil {
+		return moov.Mvex != nil
+	}
+	return len(trak.Mdia.Minf.Stbl.Stts.SampleCount) == 0
 }
 
 // startSegmentIfNeeded starts a new segment if there is none or if position match with sidx of tfra.
